@@ -329,4 +329,7 @@ def main(tier):
     # C05g: sample ranks come from loops over ALL the samples (not over the active count, which skips the last samples of a Db
     # with a selection)
     c05_skip.rank_loop_rule(prog, chk, "C05g", tuple(UNITS), 100)
+    # C05r: a rank of one data base (loop bounded by its sample count) never addresses a sample of another one (data / target
+    # sources only: the pair statistics of src/Stats take two data bases that must match sample by sample, by documented contract)
+    c05_skip.rank_owner_rule(prog, chk, "C05r", tuple(u for u in UNITS if "src/Stats/" not in u), 40)
     return chk.finish()
